@@ -91,6 +91,12 @@ func oracleC02(c *oracleCfg) *report {
 		r.hist(fmt.Sprintf("long-%dkB", len(s)>>10))
 	}
 	longInputs(units, []int{size}, run)
+	// a short prefix followed by a long run of one byte: recursion per byte of a run that only one entry state reaches
+	for _, pre := range []string{"<", "</", "<!", "<?", "<%", "<a", "<a ", "<a/", "<a b", "<a b=", "<a b='", "<a b=c", "<!--", "<![CDATA[", "<a b='c'", "x", "'", "=", "/"} {
+		for _, b := range htmlAlpha {
+			run(pre + strings.Repeat(string([]byte{b}), size))
+		}
+	}
 	if c.thorough() { // the repository's own TestMemory scale for single bytes and pairs
 		debug.SetMaxStack(64 << 20)
 		longInputs(units[:len(htmlAlpha)*len(htmlAlpha)], []int{10 << 20}, run)
@@ -573,6 +579,26 @@ func genC15(c *oracleCfg) func(emit func(string)) {
 			exhaustive("", alpha, 6, emit)
 		} else {
 			exhaustive("", alpha, 4, emit)
+		}
+		// bytes that become '<' or '=' under a 7-bit mask, a case fold or an off-by-one comparison, next to black names:
+		// a tokenizer that confuses one of them with '<' / '=' emits a tag or a value the input does not contain
+		twins := []string{"\xbc", "\xbd", "\x1c", "\x1d", ";", ">", "\x7d", "\x5d", "\xbe", "\xa0", "\x85"}
+		for _, tw := range twins {
+			for _, w := range []string{"onerror", "onclick", "style", "href", "src", "xmlns"} {
+				for _, v := range []string{"x", "javascript:x", "alert(1)", "1"} {
+					for _, p := range []string{"", "x ", "x' ", "x\" ", "x` "} {
+						emit(p + w + tw + v)
+						emit(p + w + " " + tw + v)
+						emit(p + w + " " + tw + " " + v)
+						emit(p + w + tw + "'" + v + "'")
+					}
+				}
+			}
+			for _, t := range []string{"script", "iframe", "svg", "style", "img src" + tw + "x onerror" + tw + "x"} {
+				emit(tw + t + ">")
+				emit("x" + tw + t + " ")
+				emit(tw + "/" + t + ">")
+			}
 		}
 		for _, w := range []string{"onclick", "javascript:", "style", "xmlns", "href", "&#60;script&#62;", "on", "'onclick", "\"onclick", "`onclick", " onerror x", "x' onerror 'y", "script>", "/script", "!doctype", "!--", "?xml", "%"} {
 			exhaustive(w, alpha, 2, emit)
